@@ -24,7 +24,7 @@ import (
 // ---------------------------------------------------------------------------------------
 
 type C09Step struct {
-	K       string `json:"k"` // send | inflight | replay | resign | badsig | adv | advto | flood | reload | burst
+	K       string `json:"k"` // send | sendfail | inflight | replay | resign | badsig | adv | advto | flood | reload | burst
 	Ref     int    `json:"ref,omitempty"`
 	TsOffS  int    `json:"ts_off_s,omitempty"`
 	Ms      int    `json:"ms,omitempty"`
@@ -32,6 +32,8 @@ type C09Step struct {
 	N       int    `json:"n,omitempty"`
 	Mode    string `json:"mode,omitempty"`
 	G       int    `json:"g,omitempty"`
+	// FaultAt (sendfail): the FaultAt-th per-target enqueue of this request fails in the store
+	FaultAt int `json:"fault_at,omitempty"`
 }
 
 type C09Case struct {
@@ -62,6 +64,8 @@ type nonceFirst struct {
 func c09Text(r AuthRoute, variant string) string {
 	routes := []AuthRoute{r}
 	txt := authText(routes)
+	// an always-present pull route keeps "has pull routes" stable across reloads (a change of it needs a restart)
+	txt += "\n/keep {\n  pull { path /pull/keep }\n}\n"
 	switch variant {
 	case "touch":
 		txt += "\n# touched\n/other {\n  pull { path /pull/other }\n}\n"
@@ -77,9 +81,12 @@ func genC09Case() *rapid.Generator[C09Case] {
 		if rapid.IntRange(0, 3).Draw(t, "custom") == 0 {
 			c.Route.SigH, c.Route.TsH, c.Route.NonceH = "X-Hub-Sig", "X-Hub-Ts", "X-Hub-Nonce"
 		}
+		if rapid.IntRange(0, 2).Draw(t, "fanout") == 0 {
+			c.Route.Targets = 2
+		}
 		tol := int(c.Route.tol() / time.Second)
 		stepGen := rapid.Custom(func(t *rapid.T) C09Step {
-			k := rapid.SampledFrom([]string{"send", "send", "send", "inflight", "inflight", "replay", "replay", "replay", "replay", "resign", "badsig", "adv", "adv", "advto", "advto", "flood", "reload", "reload", "reload", "burst"}).Draw(t, "k")
+			k := rapid.SampledFrom([]string{"send", "send", "send", "sendfail", "inflight", "inflight", "replay", "replay", "replay", "replay", "resign", "badsig", "adv", "adv", "advto", "advto", "flood", "reload", "reload", "reload", "burst"}).Draw(t, "k")
 			s := C09Step{K: k}
 			switch k {
 			case "send", "burst":
@@ -87,6 +94,8 @@ func genC09Case() *rapid.Generator[C09Case] {
 				if k == "burst" {
 					s.G = rapid.SampledFrom([]int{2, 4, 8, 16}).Draw(t, "g")
 				}
+			case "sendfail":
+				s.FaultAt = rapid.IntRange(1, 2).Draw(t, "fault_at")
 			case "inflight":
 				// a request planned before a reload and authenticated after it: the reload happens
 				// while the request body is still being read
@@ -119,7 +128,7 @@ func runC09(c C09Case, tolerate bool) *fOutcome {
 	out := newFOutcome()
 	route := c.Route
 	routes := []AuthRoute{route}
-	w, err := newFrontWorld(c09Text(route, ""), worldOpts{withFile: true})
+	w, err := newFrontWorld(c09Text(route, ""), worldOpts{withFile: true, faults: true})
 	if err != nil {
 		out.Skipped = "config rejected: " + err.Error()
 		out.Labels["config-rejected"] = true
@@ -127,6 +136,7 @@ func runC09(c C09Case, tolerate bool) *fOutcome {
 	}
 	defer w.close()
 	var sent []sentReq
+	faulted := false
 	first := map[string]nonceFirst{}
 	accepted202 := 0
 	nonceSeq := 0
@@ -266,6 +276,25 @@ func runC09(c C09Case, tolerate bool) *fOutcome {
 			if f, _ := issue(i, req, ts, nonce, true); handle(f) {
 				return out
 			}
+		case "sendfail":
+			// a valid request that the store fails on: answered 503, possibly after some of its
+			// per-target enqueues already happened. It may be sent again, but no target may ever
+			// hold it twice (the final per-target count below judges that).
+			nonceSeq++
+			nonce := fmt.Sprintf("x%d", nonceSeq)
+			a := AuthReq{Route: 0, Body: []byte(fmt.Sprintf("body-%d", nonceSeq))}
+			req := buildAuthReq(routes, a, now, nonce)
+			markForgotten(nonce)
+			w.faults.arm(map[int]error{s.FaultAt: errInjected})
+			rec := serve(w.ingress, req)
+			w.faults.arm(nil)
+			faulted = true
+			out.Labels["store-fault-during-request"] = true
+			if rec.Code == 202 {
+				accepted202++
+				first[nonce] = nonceFirst{ts: now.Unix(), tol: curTol, at: now, keepUntil: now.Add(curTol)}
+			}
+			sent = append(sent, sentReq{req: req, ts: now.Unix(), nonce: nonce, accepted: rec.Code == 202})
 		case "replay":
 			if len(sent) == 0 {
 				continue
@@ -422,9 +451,29 @@ func runC09(c C09Case, tolerate bool) *fOutcome {
 		out.Failure = ffail("HARNESS", "stats", len(c.Steps), "%v", err)
 		return out
 	}
-	if st.Total != accepted202 {
-		out.Failure = ffail("C09,C01", "enqueue-count", len(c.Steps), "%d requests answered 202 but %d messages are stored", accepted202, st.Total)
+	per := 1
+	if route.Targets > 0 {
+		per = route.Targets
+	}
+	if !faulted && st.Total != accepted202*per {
+		out.Failure = ffail("C09,C01", "enqueue-count", len(c.Steps), "%d requests answered 202 (x %d targets) but %d messages are stored", accepted202, per, st.Total)
 		return out
+	}
+	// no target ever holds one signed request twice (every signed request has a body of its own,
+	// except the flood requests, which share the empty body and distinct nonces)
+	if ms, err := w.dump(); err == nil {
+		seen := map[string]int{}
+		for _, m := range ms {
+			if len(m.Payload) == 0 || string(m.Payload) == "burst" || string(m.Payload) == "other-body" || string(m.Payload) == "x" {
+				continue
+			}
+			k := m.Target + "|" + string(m.Payload)
+			seen[k]++
+			if seen[k] > 1 {
+				out.Failure = ffail("C09", "second-enqueue", len(c.Steps), "target %s holds the signed request with body %q %d times", m.Target, m.Payload, seen[k])
+				return out
+			}
+		}
 	}
 	if accepted202 > 0 {
 		out.Labels["some-accepted"] = true
